@@ -20,6 +20,7 @@ META = {
 }
 META["explanation"] += " " + '(SB-eqlen, shared with C15) the key comparison GroupBy relies on is a length-checked equality, not a prefix test.'
 META["explanation"] += " " + "FLOW-key is decided by taint flow: a value carrying the group's name (the key parameters or locals computed from them alone) must be compared or looked up against something that varies per element inside the element loop. (HC-confirm, shared with C13) a match by stored hash is confirmed by comparing the key."
+META["explanation"] += " " + '(RV-use, shared with C12) the moving append GroupBy relies on really moves. (SB-scan, shared with C13) the deep copy made through copyTable visits every slot of its source.'
 
 
 
@@ -210,4 +211,10 @@ def run(ctx):
     rules.append(rule_hash_confirm(ctx, m))
     from rules.common import rule_equal_lengths
     rules.append(rule_equal_lengths(ctx, m))
+    # GroupBy re-uses one scratch object per member and relies on the moving append emptying it
+    from rules.common import rule_rvalue_use
+    rules.append(rule_rvalue_use(ctx, m))
+    # the deep copies GroupBy makes go through HashTable::copyTable: the scan must cover every slot of the source
+    from rules.C13 import rule_scan_extent
+    rules.append(rule_scan_extent(ctx, m))
     return rules
